@@ -319,11 +319,21 @@ fn gen_label(g: &mut Gen) -> L {
     }
 }
 
+/// Two labels: independent, or (1 in 5) two related texts (late difference, long common prefix,
+/// equal byte length with different code-point classes, composed / decomposed, hash-colliding).
+fn gen_label_pair(g: &mut Gen) -> (L, L) {
+    if g.ratio(1, 5) {
+        let (a, b) = g.text_pair();
+        return if g.bool() { (L::Text(a), L::Text(b)) } else { (L::Text(b), L::Text(a)) };
+    }
+    (gen_label(g), gen_label(g))
+}
+
 fn case(g: &mut Gen, ctx: &mut Ctx) -> CaseResult {
     match g.weighted(&[4, 3, 2, 2]) {
         0 => {
-            let a = gen_label(g);
-            let b = if g.ratio(1, 6) { a.clone() } else { gen_label(g) };
+            let (a, b) = gen_label_pair(g);
+            let b = if g.ratio(1, 6) { a.clone() } else { b };
             ctx.class("gen:pair");
             if pair_nontrivial(&a, &b) {
                 ctx.nontrivial(hash_str(&format!("{:?}|{:?}", a, b)));
@@ -332,7 +342,13 @@ fn case(g: &mut Gen, ctx: &mut Ctx) -> CaseResult {
             check_pair(&a, &b)
         }
         1 => {
-            let (a, b, c) = (gen_label(g), gen_label(g), gen_label(g));
+            let (a, b) = gen_label_pair(g);
+            let c = gen_label(g);
+            let (a, b, c) = match g.below(3) {
+                0 => (a, b, c),
+                1 => (a, c, b),
+                _ => (c, a, b),
+            };
             ctx.class("gen:triple");
             if pair_nontrivial(&a, &b) && pair_nontrivial(&b, &c) {
                 ctx.nontrivial(hash_str(&format!("{:?}|{:?}|{:?}", a, b, c)));
@@ -345,6 +361,13 @@ fn case(g: &mut Gen, ctx: &mut Ctx) -> CaseResult {
         2 => {
             let n = 2 + g.below(14);
             let mut ls: Vec<L> = (0..n).map(|_| gen_label(g)).collect();
+            if g.ratio(1, 3) {
+                let (a, b) = g.text_pair();
+                let at = g.below(ls.len() + 1);
+                ls.insert(at, L::Text(a));
+                let at = g.below(ls.len() + 1);
+                ls.insert(at, L::Text(b));
+            }
             if g.bool() && !ls.is_empty() {
                 let d = ls[g.below(ls.len())].clone();
                 ls.push(d);
@@ -364,8 +387,7 @@ fn case(g: &mut Gen, ctx: &mut Ctx) -> CaseResult {
                     d.labels[g.below(d.labels.len())].clone()
                 }
             };
-            let a = pick(g);
-            let b = pick(g);
+            let (a, b) = if g.ratio(1, 4) { gen_label_pair(g) } else { (pick(g), pick(g)) };
             ctx.classf(format!("gen:registry-pair:{}", d.name));
             let ind = (d.pair)(&a, &b)?;
             if ind && pair_nontrivial(&a, &b) {
